@@ -344,6 +344,21 @@ func cmdViews(o *Out, line string, f []string) {
 		errStr(ferr), j(flat), errStr(serr), j(str), j(citer), j(csiter), errStr(merr), j(mat), errStr(rerr), j(ser)))
 	o.nontrivial(sec[0][0])
 
+	// a document handed out by an iterator is the caller's: later Next calls do not modify it
+	changed := false
+	for name, ds := range map[string][]string{"ReadMetrics": flat, "ReadStructuredMetrics": str, "ReadMatrix": mat, "ReadSeries": ser,
+		"Chunk.Iterator": citer, "Chunk.StructuredIterator": csiter} {
+		for i, d := range ds {
+			if strings.HasPrefix(d, "X:") {
+				o.violation(line, name+": a document handed out by the iterator was modified by later Next calls, or cannot be serialised ("+d+")", map[string]int{"item": i})
+				changed = true
+				break
+			}
+		}
+	}
+	if changed {
+		return
+	}
 	// ---- oracle for C02 (implementation only): independent path walk over the structured documents ----
 	if ferr != nil || serr != nil || merr != nil || rerr != nil {
 		o.violation(line, "a reader view failed on a valid stream", nil)
@@ -612,8 +627,15 @@ func streamViews(o *Out, rng *rand.Rand, thorough bool, _ []string) {
 			schema = veryDeepSchema(rng, 33+rng.Intn(80))
 		}
 		count := 1 + rng.Intn(7)
+		if i%50 == 19 {
+			count = 210 + rng.Intn(200) // more samples than any of the iterators' buffers (100 + 100 slots)
+		}
 		docs := genDocs(rng, schema, count)
-		stream := collect(ctors[1+rng.Intn(4)], 1+rng.Intn(4), nil, docs)
+		csize := 1 + rng.Intn(4)
+		if count > 200 {
+			csize = count // one long chunk
+		}
+		stream := collect(ctors[1+rng.Intn(4)], csize, nil, docs)
 		if rng.Intn(4) == 0 {
 			// a second schema in the same stream
 			docs2 := genDocs(rng, genDeepSchema(rng), 1+rng.Intn(3))
@@ -1164,12 +1186,6 @@ func cmdMeta(o *Out, line string, f []string) {
 		}
 		return -2
 	}
-	var chunkM []int
-	it := ftdc.ReadChunks(ctx, bytes.NewReader(stream))
-	for it.Next() {
-		chunkM = append(chunkM, idx(it.Chunk().GetMetadata()))
-	}
-	it.Close()
 	items := func(it ftdc.Iterator) []int {
 		var out []int
 		for it.Next() {
@@ -1178,6 +1194,27 @@ func cmdMeta(o *Out, line string, f []string) {
 		it.Close()
 		return out
 	}
+	var chunkM []int
+	perChunkOK := true
+	it := ftdc.ReadChunks(ctx, bytes.NewReader(stream))
+	for it.Next() {
+		c := it.Chunk()
+		m := idx(c.GetMetadata())
+		chunkM = append(chunkM, m)
+		// the per-chunk document iterators report their chunk's metadata with every document
+		for _, pit := range []ftdc.Iterator{c.Iterator(ctx), c.StructuredIterator(ctx)} {
+			got := items(pit)
+			if len(got) != c.Size() {
+				perChunkOK = false
+			}
+			for _, g := range got {
+				if g != m {
+					perChunkOK = false
+				}
+			}
+		}
+	}
+	it.Close()
 	flat := items(ftdc.ReadMetrics(ctx, bytes.NewReader(stream)))
 	str := items(ftdc.ReadStructuredMetrics(ctx, bytes.NewReader(stream)))
 	mat := items(ftdc.ReadMatrix(ctx, bytes.NewReader(stream)))
@@ -1193,6 +1230,9 @@ func cmdMeta(o *Out, line string, f []string) {
 	o.nontrivial(sec[0][0])
 	o.count(fmt.Sprintf("meta-docs-%d", len(metas)))
 	// oracle (C11, read side)
+	if !perChunkOK {
+		o.violation(line, "a per-chunk document iterator does not report its chunk's metadata with every document", nil)
+	}
 	if is(chunkM) != is(wantChunk) {
 		o.violation(line, "a chunk does not report the most recent metadata document that preceded it", map[string]string{"got": is(chunkM), "want": is(wantChunk)})
 		return
